@@ -197,7 +197,7 @@ def run(ctx) -> list[Inst]:
             has_right = any('right_field.asset' in t and 'right' in t.split('==')[-1] for t in txts)
             construct = '(d) existing-association lookup: name and left asset and right asset'
             if pure and has_name and has_left and has_right:
-                insts.append(Inst(RULE, f.short, construct, 'ok', file=rel, line=n.lineno, props=('C15',)))
+                insts.append(Inst(RULE, f.short, construct, 'ok', file=rel, line=n.lineno, props=('C15', 'C06')))
             else:
                 insts.append(Inst(
                     RULE, f.short, construct, 'violation',
@@ -205,7 +205,7 @@ def run(ctx) -> list[Inst]:
                          f"not the conjunction name == and left asset == and right asset ==, so two different "
                          f"associations sharing a name (e.g. the same two asset types in opposite orientation) are "
                          f"treated as one and the second is dropped"),
-                    file=rel, line=n.lineno, props=('C15',)))
+                    file=rel, line=n.lineno, props=('C15', 'C06')))
     if not found:
         raise AnalysisError('R18d: existing-association lookup not found in LanguageGraph._generate_graph')
     return insts
